@@ -232,6 +232,18 @@ def run(chk, repo, tier):
     chk.ob('C06-e', 'D-sum', f.key, 'every field is added (+=) at its own slice', ok_sum,
            ('undecided: ' if ok_sum is None else '') + det if det else 'no `out[slices[k]] += fields[k].data` accumulation found', f.loc())
     chk.ob('C06-e', 'D-sum', f.key, 'accumulator starts as zeros of the merged shape', ok_zero, '', f.loc())
+    # what comes back is a Field built from the accumulated data and the merged offset: the constructor derives the extent
+    # from them (a copy of one input with data and offset replaced keeps that input's extent, which overlap tests and later
+    # merges then use)
+    built, detb = None, ''
+    for p in rets:
+        ctor = [e for e in p.events if e.kind == 'call' and e.data.get('new') == 'field.Field' and e.depth == 0]
+        if ctor and p.ret == ctor[-1].data.get('result'):
+            built = True if built is None else built
+        else:
+            built = False
+            detb = f'returns {fmt(p.ret)[:80]}, which is not a newly constructed Field'
+    chk.ob('C06-e', 'D-flow', f.key, 'the merged field is a newly constructed Field (extent derived from its data and offset)', built, detb, f.loc())
 
     slice_count_rule(chk, repo, 'C06-e')
     disjoint_rules(chk, repo)
